@@ -11,12 +11,12 @@ import (
 
 // reader bundles the anchors of the frame reader (shared by C03..C08).
 type reader struct {
-	c                                                                   *Ctx
-	advance, read, setRem, protoErr, nextReader, mrRead, maskBytes      *ssa.Function
-	writeControl                                                        *ssa.Function
-	readFinal, isServer, ndr, readRemaining, readLength, readLimit      *types.Var
-	readMaskPos, readMaskKey, readErr, br, readDecompress, msgReader    *types.Var
-	handlePing, handlePong, handleClose, readerF                        *types.Var
+	c                                                                *Ctx
+	advance, read, setRem, protoErr, nextReader, mrRead, maskBytes   *ssa.Function
+	writeControl                                                     *ssa.Function
+	readFinal, isServer, ndr, readRemaining, readLength, readLimit   *types.Var
+	readMaskPos, readMaskKey, readErr, br, readDecompress, msgReader *types.Var
+	handlePing, handlePong, handleClose, readerF                     *types.Var
 }
 
 func newReader(c *Ctx) *reader {
